@@ -355,8 +355,14 @@ def run(case):
                 rk = SS.run_case(ck, _phase1_monitors, keep_dir=True, pre_install=kd_inst)
                 roots.append(os.path.dirname(rk["rundir"]))
                 dg = FS.tree_digest(rk["rundir"])
-                killed = any(e["ev"] == "fs_kill" for e in rk["events"])
-                if not killed or dg != s["digest"]:
+                kev = [e for e in rk["events"] if e["ev"] == "fs_kill"]
+                killed = bool(kev)
+                if killed and (kev[0]["kind"], kev[0]["path"]) != (s["kind"], s["path"]):
+                    # files of one path are removed in set-iteration order, which depends on the
+                    # (absolute, per-run) file names: the two runs are not comparable at this effect
+                    stats["kill_unordered_skipped"] = stats.get("kill_unordered_skipped", 0) + 1
+                    stats["kill_checked"] -= 1
+                elif not killed or dg != s["digest"]:
                     raise RuntimeError(f"snapshot model disagrees with a real kill at effect {s['effect']} "
                                        f"torn={s['torn']} (killed={killed}): {dg} vs {s['digest']}")
                 shutil.rmtree(os.path.dirname(rk["rundir"]), ignore_errors=True)
